@@ -62,7 +62,11 @@ use barter_data::{
     transformer::ExchangeTransformer,
 };
 use barter_instrument::exchange::ExchangeId;
-use barter_integration::{Transformer, subscription::SubscriptionId};
+use barter_integration::{
+    Transformer,
+    protocol::websocket::{WebSocketParser, WsMessage},
+    subscription::SubscriptionId,
+};
 use rayon::prelude::*;
 use rust_decimal::Decimal;
 use serde::{Deserialize, Serialize};
@@ -100,6 +104,12 @@ pub struct Cfg {
     /// both sides of the 32-bit boundary (the venue's ids are u64 and passed 2^32 long ago)
     #[serde(default)]
     pub base_hi: bool,
+    /// > 0: the first `buffered` messages of a delivery reach the transformer as ONE batch of text frames through
+    /// the real `process_buffered_events` (the way of messages that arrive while subscriptions are being
+    /// validated: `ExchangeWsStream::init` hands that batch to the transformer and puts the results at the head
+    /// of the stream); the rest one by one through `transform`. 0: every message through `transform`.
+    #[serde(default)]
+    pub buffered: u8,
 }
 
 const BASE_LO: u64 = 1000;
@@ -168,6 +178,14 @@ impl Tf {
             _ => unreachable!("message of the other rule set"),
         }
     }
+
+    /// the real `process_buffered_events` over a batch of text frames
+    fn buffered(&mut self, frames: Vec<WsMessage>) -> Out {
+        match self {
+            Tf::Spot(t) => barter_data::process_buffered_events::<WebSocketParser, _>(t, frames).into_iter().collect(),
+            Tf::Fut(t) => barter_data::process_buffered_events::<WebSocketParser, _>(t, frames).into_iter().collect(),
+        }
+    }
 }
 
 struct Inst {
@@ -175,6 +193,7 @@ struct Inst {
     books_at: Vec<(PMap, PMap)>, // venue book after 0..=k changes
     ids: Vec<Ids>,
     msgs: Vec<Msg>,
+    raw: Vec<String>, // the payloads as text frames
     levelless: Vec<bool>, // per update: carries no level at all
     sub_id: SubscriptionId,
     snapshot: MarketEvent<Key, OrderBookEvent>,
@@ -184,6 +203,9 @@ pub struct Scn {
     cfg: Cfg,
     inst: [Inst; 2],
     unknown: Msg,
+    unknown_raw: String,
+    /// deliveries abandoned because a buffered batch was not processed front to back (never on the current code)
+    unattributable: AtomicU64,
     counts: [AtomicU64; 32], // class x outcome, see `bump`
     /// the "messages to the venue" channel every transformer initialisation is handed (the Binance L2
     /// transformers never send); one per scenario instead of one per step
@@ -201,15 +223,21 @@ fn levels_json(m: &[(Decimal, Decimal)]) -> Value {
 }
 
 fn parse_msg(futures: bool, market: &str, ids: Ids, bids: &[(Decimal, Decimal)], asks: &[(Decimal, Decimal)]) -> Msg {
+    parse_msg_raw(futures, market, ids, bids, asks).0
+}
+
+fn parse_msg_raw(futures: bool, market: &str, ids: Ids, bids: &[(Decimal, Decimal)], asks: &[(Decimal, Decimal)]) -> (Msg, String) {
     // the venue's payloads (formats quoted in the connectors' doc comments), parsed by the real deserialisers
     if futures {
         let v = json!({"e": "depthUpdate", "E": 1671656397761u64, "T": 1671656397760u64, "s": market,
                        "U": ids.first, "u": ids.last, "pu": ids.prev, "b": levels_json(bids), "a": levels_json(asks)});
-        Msg::Fut(serde_json::from_str(&v.to_string()).expect("futures depth update payload"))
+        let raw = v.to_string();
+        (Msg::Fut(serde_json::from_str(&raw).expect("futures depth update payload")), raw)
     } else {
         let v = json!({"e": "depthUpdate", "E": 1671656397761u64, "s": market,
                        "U": ids.first, "u": ids.last, "b": levels_json(bids), "a": levels_json(asks)});
-        Msg::Spot(serde_json::from_str(&v.to_string()).expect("spot depth update payload"))
+        let raw = v.to_string();
+        (Msg::Spot(serde_json::from_str(&raw).expect("spot depth update payload")), raw)
     }
 }
 
@@ -238,7 +266,7 @@ impl Inst {
         }
         // composition into updates
         let market = MARKETS[key as usize];
-        let (mut ids, mut msgs, mut levelless) = (Vec::new(), Vec::new(), Vec::new());
+        let (mut ids, mut msgs, mut raw, mut levelless) = (Vec::new(), Vec::new(), Vec::new(), Vec::new());
         let (mut start, mut prev) = (1usize, base);
         for end in 1..=k {
             if end == k || c.cuts & (1 << (end - 1)) != 0 {
@@ -257,7 +285,9 @@ impl Inst {
                 };
                 let (tb, ta) = (touched(true), touched(false));
                 levelless.push(tb.is_empty() && ta.is_empty());
-                msgs.push(parse_msg(futures, market, id, &tb, &ta));
+                let (m, r) = parse_msg_raw(futures, market, id, &tb, &ta);
+                msgs.push(m);
+                raw.push(r);
                 ids.push(id);
                 prev = id.last;
                 start = end + 1;
@@ -276,7 +306,7 @@ impl Inst {
         let snap: BinanceOrderBookL2Snapshot = serde_json::from_str(&v.to_string()).expect("snapshot payload");
         let exchange = if futures { ExchangeId::BinanceFuturesUsd } else { ExchangeId::BinanceSpot };
         let sub_id = sub_id_of(&parse_msg(futures, market, Ids { first: 0, last: 0, prev: 0 }, &[], &[]));
-        Inst { snap_id, books_at, ids, msgs, levelless, sub_id, snapshot: MarketEvent::from((exchange, key, snap)) }
+        Inst { snap_id, books_at, ids, msgs, raw, levelless, sub_id, snapshot: MarketEvent::from((exchange, key, snap)) }
     }
 }
 
@@ -284,7 +314,7 @@ impl Scn {
     pub fn new(cfg: Cfg) -> Self {
         let base = base_of(&cfg);
         let inst = [Inst::build(cfg.futures, cfg.stride as u64, base, 0, cfg.inst[0]), Inst::build(cfg.futures, cfg.stride as u64, base, 1, cfg.inst[1])];
-        let unknown = parse_msg(cfg.futures, UNKNOWN_MARKET, Ids { first: base + 1, last: base + 1, prev: base }, &[(dec("7"), dec("7"))], &[]);
+        let (unknown, unknown_raw) = parse_msg_raw(cfg.futures, UNKNOWN_MARKET, Ids { first: base + 1, last: base + 1, prev: base }, &[(dec("7"), dec("7"))], &[]);
         let (tx, rx) = tokio::sync::mpsc::unbounded_channel();
         let reversed = (cfg.inst[0].cuts as u32 + cfg.inst[0].snap as u32) % 2 == 1;
         let snaps = if reversed {
@@ -292,7 +322,7 @@ impl Scn {
         } else {
             [inst[0].snapshot.clone(), inst[1].snapshot.clone()]
         };
-        Scn { cfg, inst, unknown, snaps, counts: std::array::from_fn(|_| AtomicU64::new(0)), ws_sink: (tx, std::sync::Mutex::new(rx)) }
+        Scn { cfg, inst, unknown, unknown_raw, unattributable: AtomicU64::new(0), snaps, counts: std::array::from_fn(|_| AtomicU64::new(0)), ws_sink: (tx, std::sync::Mutex::new(rx)) }
     }
 
     /// The real transformer, initialised as `ExchangeWsStream::init` does: subscription map + REST snapshots.
@@ -309,6 +339,10 @@ impl Scn {
         } else {
             Tf::Spot(futures::executor::block_on(BinanceSpotOrderBooksL2Transformer::<Key>::init(map, snaps, tx)).expect("transformer init"))
         }
+    }
+
+    fn raw(&self, s: &Sym) -> &String {
+        if s.inst >= 2 { &self.unknown_raw } else { &self.inst[s.inst as usize].raw[s.k as usize] }
     }
 
     fn msg(&self, s: &Sym) -> &Msg {
@@ -380,6 +414,8 @@ pub struct St {
     mon: [Mon; 2],
     ended: bool, // a terminal error ended the connection
     unknown_used: bool,
+    /// `Cfg::buffered`: number of outputs of the buffered batch the consumer has been handed so far
+    batch_outs: usize,
 }
 
 fn classify(futures: bool, snap: u64, pos: Option<u64>, m: Ids) -> Class {
@@ -428,7 +464,7 @@ impl SeqModel for Scn {
             books[i].update(self.inst[i].snapshot.kind.clone());
         }
         let mon = Mon { cands: vec![None], clean: Clean::Pre, desynced: false };
-        St { books, mon: [mon.clone(), mon], ended: false, unknown_used: false }
+        St { books, mon: [mon.clone(), mon], ended: false, unknown_used: false, batch_outs: 0 }
     }
 
     fn alphabet(&self, s: &St, _h: &[Sym]) -> Vec<Sym> {
@@ -458,15 +494,45 @@ impl SeqModel for Scn {
     fn step(&self, st: &mut St, sym: &Sym, hist: &[Sym], out: &mut Vec<Viol>) {
         let r = self.rules();
         // real code: fresh transformer, history re-delivered, then this message
+        let b = self.cfg.buffered as usize;
+        let batch_seen = st.batch_outs;
         let res = catch_unwind(AssertUnwindSafe(|| {
             let mut tf = self.init_tf();
-            for h in hist {
+            if b == 0 {
+                for h in hist {
+                    let _ = tf.transform(self.msg(h));
+                }
+                return Some(tf.transform(self.msg(sym)));
+            }
+            // the first `b` messages of the delivery are one buffered batch; what the batch of the first n+1
+            // messages yields beyond what the batch of the first n yielded is the output for message n+1
+            let all: Vec<&Sym> = hist.iter().chain(std::iter::once(sym)).collect();
+            let in_batch = b.min(all.len());
+            let frames: Vec<WsMessage> = all[..in_batch].iter().map(|s| WsMessage::text(self.raw(s).clone())).collect();
+            let batch_out = tf.buffered(frames);
+            if hist.len() < b {
+                if batch_out.len() < batch_seen {
+                    return None; // the batch is not processed front to back: outputs cannot be attributed
+                }
+                return Some(batch_out.into_iter().skip(batch_seen).collect());
+            }
+            for h in &all[in_batch..hist.len()] {
                 let _ = tf.transform(self.msg(h));
             }
-            tf.transform(self.msg(sym))
+            Some(tf.transform(self.msg(sym)))
         }));
         let outputs: Out = match res {
-            Ok(o) => o,
+            Ok(Some(o)) => {
+                if hist.len() < b {
+                    st.batch_outs += o.len();
+                }
+                o
+            }
+            Ok(None) => {
+                self.unattributable.fetch_add(1, Ordering::Relaxed);
+                st.ended = true;
+                return;
+            }
             Err(_) => {
                 out.push((format!("C06/{r}/panic"), format!("transform panicked on {sym:?} after {hist:?} ({:?})", self.cfg)));
                 st.ended = true;
@@ -619,8 +685,9 @@ impl Scn {
 
 /// Configuration sweep: instrument 0 runs through every composition x snapshot point of its script;
 /// instrument 1 takes a small menu (so that its messages interleave with every chain state of instrument 0).
-fn configs(k0: u8, scripts0: &[u8], menu1: &[InstCfg]) -> Vec<Cfg> {
+fn configs(k0: u8, scripts0: &[u8], menu1: &[InstCfg], buffered: &[u8]) -> Vec<Cfg> {
     let mut v = Vec::new();
+    for &buffered in buffered {
     for (futures, stride) in [(false, 1u8), (true, 1), (true, 2)] {
         for &script in scripts0 {
             for cuts in 0..(1u8 << (k0 - 1)) {
@@ -629,11 +696,12 @@ fn configs(k0: u8, scripts0: &[u8], menu1: &[InstCfg]) -> Vec<Cfg> {
                         // the id range is not a swept dimension of its own (the rules only compare ids): half of the
                         // compositions run with ids around 1000, the other half with ids on both sides of 2^32
                         let base_hi = cuts & 0b10 != 0;
-                        v.push(Cfg { futures, stride, inst: [InstCfg { script, k: k0, cuts, snap }, *m1], base_hi });
+                        v.push(Cfg { futures, stride, inst: [InstCfg { script, k: k0, cuts, snap }, *m1], base_hi, buffered });
                     }
                 }
             }
         }
+    }
     }
     v
 }
@@ -645,20 +713,28 @@ pub fn run(ctx: &Ctx) -> Outcome {
     // script 1 (a two-change first update, everything stale)
     let b = |script: u8, k: u8, cuts: u8, snap: u8| InstCfg { script, k, cuts, snap };
     let menu3 = vec![b(3, 3, 0b11, 0), b(3, 3, 0b11, 1), b(1, 3, 0b10, 2), b(1, 3, 0b00, 3)];
-    let sweeps: Vec<(u8, Vec<u8>, Vec<InstCfg>, usize)> = ctx.tier.pick(
-        vec![(5, vec![0], menu3.clone(), 6)],
-        vec![(5, vec![0, 2], menu3.clone(), 7), (6, vec![0, 2], menu3.clone(), 6)],
+    // last column: sizes of the buffered batch at the head of the delivery (0 = none, see `Cfg::buffered`)
+    let sweeps: Vec<(u8, Vec<u8>, Vec<InstCfg>, usize, Vec<u8>)> = ctx.tier.pick(
+        vec![(5, vec![0], menu3.clone(), 6, vec![0]), (4, vec![0], menu3.clone(), 4, vec![2, 4])],
+        vec![
+            (5, vec![0, 2], menu3.clone(), 7, vec![0]),
+            (6, vec![0, 2], menu3.clone(), 6, vec![0]),
+            (5, vec![0, 2], menu3.clone(), 4, vec![1, 2, 3, 4]),
+            (4, vec![0, 2], menu3.clone(), 5, vec![1, 2, 3, 4, 5]),
+        ],
     );
     let (mut sequences, mut steps, mut n_cfg) = (0u64, 0u64, 0usize);
     let mut distinct_final = 0usize;
     let mut table: BTreeMap<String, u64> = BTreeMap::new();
     let mut samples = Vec::new();
     let mut bounds = Vec::new();
-    for (k0, scripts0, menu1, max_len) in &sweeps {
-        let cfgs = configs(*k0, scripts0, menu1);
-        bounds.push(json!({"changes_instrument0": k0, "scripts_instrument0": scripts0, "menu_instrument1": menu1, "max_delivery_len": max_len, "configurations": cfgs.len()}));
+    let (mut buffered_sequences, mut unattributable) = (0u64, 0u64);
+    for (k0, scripts0, menu1, max_len, buffered) in &sweeps {
+        let cfgs = configs(*k0, scripts0, menu1, buffered);
+        bounds.push(json!({"changes_instrument0": k0, "scripts_instrument0": scripts0, "menu_instrument1": menu1, "max_delivery_len": max_len, "buffered_batch_sizes": buffered, "configurations": cfgs.len()}));
         n_cfg += cfgs.len();
         // configurations in parallel (the seq engine also parallelises inside one configuration)
+        let unatt = AtomicU64::new(0);
         let results: Vec<(Cfg, seq::SeqStats, Vec<(String, u64)>)> = cfgs
             .par_iter()
             .map(|cfg| {
@@ -674,10 +750,15 @@ pub fn run(ctx: &Ctx) -> Outcome {
                         }
                     }
                 }
+                unatt.fetch_add(scn.unattributable.load(Ordering::Relaxed), Ordering::Relaxed);
                 (*cfg, st, t)
             })
             .collect();
+        unattributable += unatt.load(Ordering::Relaxed);
         for (cfg, st, t) in results {
+            if cfg.buffered > 0 {
+                buffered_sequences += st.sequences;
+            }
             sequences += st.sequences;
             steps += st.steps;
             distinct_final += st.distinct_final; // distinct final (local books, chain positions, ended) per configuration
@@ -730,6 +811,8 @@ pub fn run(ctx: &Ctx) -> Outcome {
             "init_layer_samples": init.samples,
             "init_layer_rule": "real ExchangeWsStream::<BinanceSpotOrderBooksL2Transformer>::init and ::<BinanceFuturesUsdOrderBooksL2Transformer>::init against a scripted loopback venue: updates 1..4 in order (or starting at 2) after the subscription confirmation, REST snapshot at S in 0..=4 (lagging or leading the socket); the same with a SECOND instrument subscribed on the connection (own book evolution, own start 1/2, own snapshot point; updates of the two instruments alternate on the socket); consumer applies the yielded events in order to one book per instrument; once an instrument's snapshot was applied its book must equal the venue book at its sequence unless a sequence error was yielded; deliveries that contain the update covering the snapshot (for every instrument) never error; a delivery that starts beyond it yields the sequence error; every subscribed instrument gets its snapshot",
             "evaluations": sequences,
+            "deliveries_with_a_buffered_batch_at_the_head": buffered_sequences,
+            "deliveries_abandoned_because_a_buffered_batch_was_not_processed_front_to_back": unattributable,
             "steps": steps,
             "configurations": n_cfg,
             "distinct_nontrivial": distinct_final,
@@ -737,7 +820,7 @@ pub fn run(ctx: &Ctx) -> Outcome {
             "class_outcome_counts": table,
             "exhaustive": true,
             "bounds": bounds,
-            "rule": "every delivery sequence (length <= L) over the depth updates of two instruments + one un-subscribed market message, through the real Binance spot / futures L2 transformer (ExchangeTransformer::init) into real OrderBooks; venue-rule monitor: admitted updates form the published chain, book == venue book at its sequence, gaps give a terminal error, in-order delivery after older messages never errors",
+            "rule": "every delivery sequence (length <= L) over the depth updates of two instruments + one un-subscribed market message, through the real Binance spot / futures L2 transformer (ExchangeTransformer::init) into real OrderBooks - message by message through transform, and (second sweep) with the first b messages handed over as one batch of text frames through the real process_buffered_events (the way of messages received while subscriptions are validated); venue-rule monitor: admitted updates form the published chain, book == venue book at its sequence, gaps give a terminal error, in-order delivery after older messages never errors",
             "samples": samples,
         }),
         assumptions: vec![
@@ -747,6 +830,7 @@ pub fn run(ctx: &Ctx) -> Outcome {
             "REST snapshots are well-formed; in the transformer layer they are delivered to the consumer before the first depth update; the ordering of buffered events inside ExchangeWsStream::init is exercised by the separate loopback layer (spot and futures; one and two instruments per connection - in a two-instrument script the consumer's connection ends at the first sequence error, as with_termination_on_error makes it)".into(),
             "re-initialisation layer: init_market_stream is run for a harness exchange type (Binance's protocol, scripted REST fetcher) because Binance's own fetcher has a constant REST URL; the transformer, sequencers, stream initialisation and reconnect / termination combinators are the real ones; a stream that stays silent for 30 s after a sequence error while the venue accepts connections counts as not re-initialising".into(),
             "a stale or duplicated message after the chain has started may be dropped or answered with an error (the statement leaves it open)".into(),
+            "buffered batch: the outputs of the batch of the first n+1 messages beyond those of the batch of the first n are taken as the output for message n+1 (the batch is processed front to back); a delivery where that does not hold is abandoned unjudged and counted".into(),
         ],
     }
 }
